@@ -7,7 +7,9 @@ import json, os, pathlib, subprocess, sys
 ROOT = pathlib.Path(__file__).resolve().parent.parent
 lane, nl, *seeds = sys.argv[1:]; lane, nl = int(lane), int(nl)
 ids = sorted(d.name for d in (ROOT / "seeded").iterdir() if d.is_dir() and not d.name.startswith("_") and os.environ.get("DET_FILTER", "") in d.name)
-for k, sid in enumerate(ids):
+order = list(enumerate(ids))
+if os.environ.get("DET_REVERSE"): order.reverse()      # (a second set of lanes can work from the other end)
+for k, sid in order:
     if k % nl != lane: continue
     meta = json.load(open(ROOT / "seeded" / sid / "meta.json")); props = meta["what_was_run"]["detected_by"] or [sid.split("-")[0]]
     wt = f"/tmp/detwt-{sid}"
